@@ -125,6 +125,24 @@ def run(chk):
         for name, okm, kk in (("QR", ok_qr, k), ("CCQR", ok_cc, k), ("GQR", ok_qr, Nn)):
             if okm and got[name][:kk] != base[name][:kk]:
                 chk.violation("impl", "scaling-changes-ranking:" + name, f"{name}: ranking {base[name][:kk]} became {got[name][:kk]} after scaling matrix (and costs) by {c}", case)
+        # ---------------- (2') the same real matrix held in an integer-typed array (the geometry is the same; the costs stay fractional)
+        if rng.random() < 0.35:
+            Bi = rng.integers(-12, 13, size=(n, m))
+            Bif = Bi.astype(float)
+            Biq = fr_mat(Bif)
+            r_f = {"QR": [int(i) for i in QR().fit(Bif).get_sensors()],
+                   "CCQR": [int(i) for i in impl.quiet(CCQR(sensor_costs=costs.copy()).fit, Bif.copy()).get_sensors()]}
+            cI = int(rng.choice([1, 2, 3, 5]))
+            dt = [np.int64, np.int32, np.int16][int(rng.integers(0, 3))]
+            r_i = {"QR": [int(i) for i in QR().fit((Bi * cI).astype(dt)).get_sensors()],
+                   "CCQR": [int(i) for i in impl.quiet(CCQR(sensor_costs=costs * cI).fit, (Bi * cI).astype(dt)).get_sensors()]}
+            case = {**case0, "B": Bif.tolist(), "transform": f"integer-typed array ({np.dtype(dt).name}) scaled by {cI}", "observed": r_i, "base": r_f}
+            chk.case(case)
+            chk.count("pairs:integer-typed")
+            for name, okm in (("QR", has_margin(Biq, r_f["QR"][:k])), ("CCQR", has_margin(Biq, r_f["CCQR"][:k], cq))):
+                if okm and r_i[name][:k] != r_f[name][:k]:
+                    chk.violation("impl", "integer-typing-changes-ranking:" + name, f"{name}: ranking {r_f[name][:k]} of the float matrix became {r_i[name][:k]} for the same "
+                                  f"matrix held as {np.dtype(dt).name} and scaled by {cI} (costs scaled alike)", case)
         # ---------------- (3) relabelling the sensors
         sig = rng.permutation(n)            # new label of sensor i is sig[i]
         inv = np.argsort(sig)
@@ -146,10 +164,18 @@ def run(chk):
         if ok_qr:
             X = B.T.copy()
             from pysensors.basis import Identity
-            m1 = SSPOR(basis=Identity(n_basis_modes=m), n_sensors=k)
-            m2 = SSPOR(basis=Identity(n_basis_modes=m), n_sensors=k)
+            k0 = k if rng.random() < 0.5 else int(rng.integers(1, k + 1))      # fitted with fewer sensors than ranked ones, raised afterwards
+            m1 = SSPOR(basis=Identity(n_basis_modes=m), n_sensors=k0)
+            m2 = SSPOR(basis=Identity(n_basis_modes=m), n_sensors=k0)
             impl.quiet(m1.fit, X, quiet=True, seed=1)
-            impl.quiet(m2.fit, X[:, inv].copy(), quiet=True, seed=1)
+            impl.quiet(m2.fit, X[:, inv].copy(), quiet=True, seed=2 if k0 < k else 1)       # the seed only orders the unranked tail
+            if k0 < k:
+                chk.count("sspor_pairs_raised_after_fit")
+                a1, a2 = [int(i) for i in m1.all_sensors[:k]], [int(i) for i in m2.all_sensors[:k]]
+                if a2 != [int(sig[i]) for i in a1]:
+                    chk.violation("impl", "sspor-relabelling-selection", f"SSPOR(n_sensors={k0}): all_sensors[:{k}] = {a2} on relabelled data, expected {[int(sig[i]) for i in a1]}", case)
+                m1.set_number_of_sensors(k)
+                m2.set_n_sensors(k)
             s1 = [int(i) for i in m1.selected_sensors]
             s2 = [int(i) for i in m2.selected_sensors]
             if s2 != [int(sig[i]) for i in s1]:
